@@ -30,24 +30,30 @@ THEOREMS = [
     'IblVerif.C04.interrupted_then_forced_completes',
     'IblVerif.C04.not_np2_or_split_untouched',
     'IblVerif.C04.rerun_partial_folders_counterexample',
+    'IblVerif.C04.same_object_rerun_after_delete_counterexample',
+    'IblVerif.C04.np21_same_object_sorted_counterexample',
 ]
-RULE = ('histories of 1..4 (thorough: ..5) calls NP2Converter(file, post_check, delete_original, compress).process(overwrite) on a tiny '
+RULE = ('histories of 1..4 (thorough: ..5) calls, each either NP2Converter(file, post_check, delete_original, compress).process(overwrite) on a new '
+        'object or (about half of the calls after the first) process(overwrite) once more on the SAME object, on a tiny '
         'recording (600..3700 samples x 385 channels, window 1200 or 1800, i.e. 1..5 processing and 1..4 verification windows; real fixture metadata: NP2.4 with '
         'the shank map folded to 1..4 shanks, NP2.1, NP1; original as .bin or .cbin); every call draws the three options and overwrite '
         'uniformly, an interruption (none 45 %, else the j-th _split2shanks / write_meta_data / Reader.read inside check_NP24 / '
         'Reader.compress_file call or delete_NP24, index biased to 0, last, one past the last) and, for NP2.4, sometimes an unfaithful '
-        'split (last row of one shank altered before it is written) or a call on shank 0\'s already split ap file; calls are generated '
+        'split (one AP sample of one shank altered before it is written, in a row of the first, a middle or the last verification window) '
+        'or a call on shank 0\'s already split ap file; calls are generated '
         'while the real code runs (the next call may depend on the real disk, never on the model).  After each call the real directory '
         'tree is abstracted (status/exception, original present as .bin/.cbin with its bytes verified by SHA-1, per shank folder and '
         'stream: .bin absent / first k windows / whole good / whole altered, .cbin decoded and compared, .ch, .cbin_tmp, .meta compared '
-        'with the reference text, any unexpected file) and compared token by token with Converter.run.  Non-trivial = at least one call '
+        'with the reference text, any unexpected file; check_completed / already_exists of the live object) and compared token by token with Converter.run.  Non-trivial = at least one call '
         'of the history wrote to the disk or raised; distinct by (configuration, call sequence).  Thorough adds every single call '
         '(8 option triples x overwrite x every interruption point) from the fresh and from the completed state of one configuration per kind.')
 ASSUMPTIONS = [
     'interruptions are Python exceptions raised at the call boundaries listed in RULE (not power loss between two syscalls); an interrupted '
     'compress_file leaves a .cbin_tmp and has not yet written the .ch (mtscomp writes the data file first)',
-    'every call of a history uses a new NP2Converter object and the same window size; the file handed to it is the original .bin, else the '
-    'original .cbin, else the (missing) .bin path; the already-split call is made only when shank 0\'s ap file and its .meta are complete',
+    'one converter object is live at a time (a new one replaces it) and every object uses the same window size; the file handed to a new '
+    'object is the original .bin, else the original .cbin, else the (missing) .bin path; never generated (known findings, demonstrated '
+    'separately): process(overwrite=True) on the object whose delete_NP24 already removed a .bin original (kills the interpreter); the lf '
+    'content written by an NP2.1 object after its own compress_NP21 re-opened the reader sorted is compared with the model but not demanded by the oracle; the already-split call is made only when shank 0\'s ap file and its .meta are complete',
     'mtscomp compression is lossless and deterministic (checked: every .cbin met is decoded and compared with the expected bytes)',
     'the unfaithful split alters one AP (non-sync) sample (any row): check_NP24 compares the sync column of the first shank only; the model is told which processing window keeps the row and which verification window reads it (derived in the harness from the row)',
     'LF content is taken from an uninterrupted reference run of the same code (its correctness is C12); AP content, sizes of partially '
@@ -80,6 +86,10 @@ RATIO = 12
 
 class Injected(Exception):
     """the environment's exception"""
+
+
+class DeadReader(Exception):
+    """stands for the interpreter dying on a read through a closed np.memmap"""
 
 
 # ---------------------------------------------------------------------------------------------
@@ -253,6 +263,11 @@ def faults(point, corrupt):
             cnt['in_check'] = False
 
     def read(self, *a, **kw):
+        mm = getattr(getattr(self, '_raw', None), '_mmap', None)
+        if mm is not None and mm.closed:
+            # reading the np.memmap of a reader that was closed is a segmentation fault: the harness turns it into an exception
+            # raised at the same point (the model's `crash`); the real crash is demonstrated in a subprocess by known_findings
+            raise DeadReader()
         if cnt['in_check']:
             k = cnt['v']
             cnt['v'] += 1
@@ -291,37 +306,83 @@ def target_file(root, call):
     return f
 
 
-def do_call(root, rec, call):
-    """NP2Converter(...).process(overwrite) under the call's faults; returns the canonical result token."""
+def do_call(root, rec, call, holder=None):
+    """One step of a history on the real code under the call's faults: NP2Converter(...).process(overwrite), or -- call['ru'] --
+    process(overwrite) again on the converter object kept in `holder` from the previous step.  Returns the canonical result
+    token; `holder['conv']` is the live object afterwards (None when the constructor failed)."""
     import neuropixel
-    f = target_file(root, call)
-    conv = None
+    own = holder is None
+    holder = {} if holder is None else holder
     prev = logging.root.manager.disable
     logging.disable(logging.CRITICAL)
     try:
         with contextlib.redirect_stderr(io.StringIO()), faults(call['int'], call['cor']):
-            try:
-                conv = neuropixel.NP2Converter(f, post_check=bool(call['pc']), delete_original=bool(call['dl']),
-                                               compress=bool(call['cp']))
-            except FileNotFoundError:
-                return 'raise:noOriginal'
-            conv.init_params(nwindow=rec.w)
+            if call.get('ru'):
+                conv = holder.get('conv')
+                if conv is None:
+                    return 'raise:outOfScope'       # nothing to call again: not an input of the property
+            else:
+                old = holder.pop('conv', None)
+                if old is not None:
+                    _close_all(old)
+                    del old
+                    gc.collect()
+                try:
+                    conv = neuropixel.NP2Converter(target_file(root, call), post_check=bool(call['pc']),
+                                                   delete_original=bool(call['dl']), compress=bool(call['cp']))
+                except FileNotFoundError:
+                    return 'raise:noOriginal'
+                conv.init_params(nwindow=rec.w)
+                holder['conv'] = conv
             try:
                 st = conv.process(overwrite=bool(call['ow']))
                 res = f'ret{int(st)}'
             except Injected:
                 res = 'raise:injected'
+            except DeadReader:
+                res = 'raise:crash'
             except AssertionError as e:
                 res = 'raise:assertion' if 'do no match' in str(e) else f'raise:AssertionError({str(e)[:60]})'
+            except FileNotFoundError as e:
+                # delete_NP24 unlinking a file this object has already unlinked is `fileNotFound` in the model; any other one keeps its text
+                res = 'raise:fileNotFound' if (call.get('ru') and 'ap.' in str(e) and 'probe00/' in str(e).replace(str(root), '')) \
+                    else f'raise:FileNotFoundError({str(e).replace(str(root), "<root>")[:80]})'
             except Exception as e:  # anything else is an observable of its own
                 res = f'raise:{type(e).__name__}({str(e).replace(str(root), "<root>")[:80]})'
     finally:
         logging.disable(prev)
-        if conv is not None:
-            _close_all(conv)
-        del conv
+        conv = None
+        if own and holder.get('conv') is not None:
+            _close_all(holder.pop('conv'))
         gc.collect()
     return res
+
+
+def obj_token(holder):
+    """check_completed / already_exists of the live converter object (the model's `Obj`), '-' when there is none"""
+    conv = holder.get('conv')
+    if conv is None:
+        return '-'
+    return f"{int(bool(getattr(conv, 'check_completed', False)))}{int(bool(getattr(conv, 'already_exists', False)))}"
+
+
+def reader_reopened_sorted(holder):
+    """the live NP2.1 object's compress_NP21 has re-opened self.sr with the default sort=True (finding np21-same-object-sorted-reader)"""
+    conv = holder.get('conv')
+    if conv is None or conv.np_version != 'NP2.1':
+        return False
+    try:
+        return not np.array_equal(conv.sr.raw_channel_order, np.arange(conv.sr.nc))
+    except Exception:
+        return False
+
+
+def object_deleted_its_original(holder):
+    """the live object's delete_NP24 has closed self.sr and unlinked self.ap_file (finding same-object-rerun-after-delete)"""
+    conv = holder.get('conv')
+    if conv is None or conv.np_version != 'NP2.4' or getattr(conv, 'already_processed', False):
+        return False
+    return not conv.ap_file.exists()
 
 
 def _close_all(conv):
@@ -533,7 +594,7 @@ def recoverable(root, rec):
     return None
 
 
-def complete_valid(root, rec, compress):
+def complete_valid(root, rec, compress, check_lf=True):
     """None when the per-shank output is complete and valid, else why not."""
     for i, d in enumerate(rec.out_dirs(root)):
         for et in ('ap', 'lf'):
@@ -559,6 +620,10 @@ def complete_valid(root, rec, compress):
                     return f'shank {i} lf: shape {arr.shape}, expected {(nlf, len(cols))}'
                 if not np.array_equal(arr[:, -1], rec.data[::RATIO, -1]):
                     return f'shank {i} lf: sync column is not the original sync decimated by {RATIO}'
+                ref_lf = rec.reference()['lf'].get(i)
+                if check_lf and ref_lf is not None and arr.tobytes() != ref_lf:
+                    return (f'shank {i} lf: samples differ from the lf file a first run on a new converter object writes '
+                            f'for the same recording')
             want = {'original_meta': 'False', 'nSavedChans': str(len(cols))}
             if rec.kind == 'np24':
                 want['NP2.4_shank'] = str(i)
@@ -598,10 +663,14 @@ def effective_fault(rec, call):
 
 def oracle_step(root, rec, call, pre, res):
     """C04 stated on the disk after one call.  `pre` = facts recorded before the call.  None when it holds."""
+    if pre.get('excluded'):
+        return None     # known finding same-object-rerun-after-delete: process(overwrite=True) on an object that deleted its original
     why = recoverable(root, rec)
     if why:
         return why
-    if call['sh'] and not (rec.kind == 'np24' and pre['target_complete']):
+    if res == 'raise:outOfScope':
+        return None     # process() "again" without a converter object: not an input of the property
+    if call['sh'] and not call.get('ru') and not (rec.kind == 'np24' and pre['target_complete']):
         return None     # not an input of the property: there is no complete split shank file to point the converter at
     had, has = pre['orig_present'], orig_present(root)
     if had and not has:
@@ -611,6 +680,11 @@ def oracle_step(root, rec, call, pre, res):
     if not had:
         if call['sh']:
             pass
+        elif call.get('ru') and rec.kind == 'np24' and not call['ow']:
+            # the object that verified and deleted the original is asked again, without overwrite: nothing to do
+            if res != 'ret0' or snapshot(root) != pre['snap']:
+                return f'repeated run without overwrite (same object, original already deleted by it) ended with {res} / changed the disk'
+            return None
         elif res != 'raise:noOriginal' or snapshot(root) != pre['snap']:
             return f'a call without an original ended with {res} / changed the disk'
         else:
@@ -633,7 +707,8 @@ def oracle_step(root, rec, call, pre, res):
     if not effective_fault(rec, call) and (call['ow'] or pre['no_output']):
         if res != 'ret1':
             return f'{"forced re-run" if call["ow"] else "first run"} without any fault ended with {res}, expected status 1'
-        why = complete_valid(root, rec, bool(call['cp']))
+        # known finding np21-same-object-sorted-reader: the lf content of that class is not demanded
+        why = complete_valid(root, rec, bool(call['cp']), check_lf=not pre.get('sorted_reader'))
         if why:
             return f'{"forced re-run" if call["ow"] else "first run"} did not end with a complete valid set: {why}'
     if res.startswith('raise:') and res not in ('raise:injected', 'raise:assertion', 'raise:noOriginal'):
@@ -653,7 +728,7 @@ def facts_before(root, rec):
 def call_token(c):
     i = c['int']
     it = '-' if i is None else ('d' if i[0] == 'd' else f'{i[0]}{i[1]}')
-    return f"{c['pc']}{c['cp']}{c['dl']}{c['ow']}{c['sh']}:{it}:{'-' if c['cor'] is None else '%d@%d' % c['cor']}"
+    return f"{c['pc']}{c['cp']}{c['dl']}{c['ow']}{c['sh']}{c.get('ru', 0)}:{it}:{'-' if c['cor'] is None else '%d@%d' % c['cor']}"
 
 
 def lean_call_token(rec, c):
@@ -669,7 +744,7 @@ def lean_call_token(rec, c):
 def parse_call(tok):
     b, i, c = tok.split(':')
     it = None if i == '-' else (('d',) if i == 'd' else (i[0], int(i[1:])))
-    return dict(pc=int(b[0]), cp=int(b[1]), dl=int(b[2]), ow=int(b[3]), sh=int(b[4]), int=it, cor=None if c == '-' else tuple(int(x) for x in c.split('@')))
+    return dict(pc=int(b[0]), cp=int(b[1]), dl=int(b[2]), ow=int(b[3]), sh=int(b[4]), ru=int(b[5]) if len(b) > 5 else 0, int=it, cor=None if c == '-' else tuple(int(x) for x in c.split('@')))
 
 
 def cfg_tokens(cfg):
@@ -696,7 +771,7 @@ def pick_index(rng, tot):
     return int(rng.integers(0, tot + 1))
 
 
-def gen_call(rng, rec, state_tok):
+def gen_call(rng, rec, state_tok, holder=None):
     n, nw = rec.n, rec.nwin()
     nver = -(-rec.ns // rec.w)
     c = dict(pc=int(rng.integers(0, 2)), cp=int(rng.integers(0, 2)), dl=int(rng.integers(0, 2)), ow=int(rng.integers(0, 2)),
@@ -732,14 +807,22 @@ def gen_call(rng, rec, state_tok):
                 c['pc'] = 1
         if target_complete(state_tok) and rng.random() < 0.12:
             c['sh'] = 1
+    c['ru'] = 0
+    if holder is not None and holder.get('conv') is not None and rng.random() < 0.5:
+        # the same converter object once more (its own options); never the excluded class of the known finding
+        c['ru'] = 1
+        c.update(holder['opts'])
+        if c['ow'] and object_deleted_its_original(holder):
+            c['ow'] = 0
     return c
 
 
 def run_history(rec, orig, calls=None, rng=None, length=0, oracle=True):
     """Execute a history on the real code.  Either `calls` (list of call dicts) or (`rng`, `length`): generated on line.
-    Returns (calls, [result@state tokens], [oracle verdicts])."""
+    Returns (calls, [result@state#object tokens], [oracle verdicts]).  A reused call carries the options of its object."""
     root = Path(tempfile.mkdtemp(prefix='c04_'))
     out_calls, toks, verdicts = [], [], []
+    holder = {}
     try:
         rec.materialise(root, orig)
         state = abstract(root, rec)
@@ -748,21 +831,31 @@ def run_history(rec, orig, calls=None, rng=None, length=0, oracle=True):
             if calls is not None:
                 if k >= len(calls):
                     break
-                call = calls[k]
+                call = dict(calls[k])
             else:
                 if k >= length:
                     break
-                call = gen_call(rng, rec, state)
+                call = gen_call(rng, rec, state, holder)
             k += 1
+            if call.get('ru') and holder.get('conv') is not None:
+                call.update(holder['opts'])
+            excluded = bool(call.get('ru') and call['ow'] and object_deleted_its_original(holder))
             pre = facts_before(root, rec) if oracle else None
             if pre is not None:
                 pre['target_complete'] = target_complete(state)
-            res = do_call(root, rec, call)
+                pre['excluded'] = excluded
+                pre['sorted_reader'] = bool(call.get('ru') and reader_reopened_sorted(holder))
+            res = do_call(root, rec, call, holder)
+            if not call.get('ru'):
+                holder['opts'] = dict(pc=call['pc'], cp=call['cp'], dl=call['dl'], sh=call['sh'])
             state = abstract(root, rec)
             out_calls.append(call)
-            toks.append(res + '@' + state)
+            toks.append(res + '@' + state + '#' + obj_token(holder))
             verdicts.append(oracle_step(root, rec, call, pre, res) if oracle else None)
     finally:
+        if holder.get('conv') is not None:
+            _close_all(holder.pop('conv'))
+        gc.collect()
         shutil.rmtree(root, ignore_errors=True)
     return out_calls, toks, verdicts
 
@@ -784,12 +877,19 @@ def gen_cfg(rng, ov):
 
 def _tags(cfg, calls, toks):
     tags = [cfg['kind'], f'len={len(calls)}', 'orig=' + cfg['orig'].partition('@')[0]]
+    toks = [x.split('#')[0] for x in toks]
     if '@' in cfg['orig']:
         tags.append('partial-folders(known finding)')
     prev_state = None
+    prev_res = None
     for c, t in zip(calls, toks):
         res, st = t.split('@', 1)
         tags.append('res=' + res.split('(')[0])
+        tags.append('same-object' if c.get('ru') else 'fresh-object')
+        if res in ('raise:crash', 'raise:fileNotFound'):
+            tags.append('same-object-rerun-after-delete(known finding)')
+        if c.get('ru') and c['ow']:
+            tags.append('same-object-forced' + ('-after-interrupt' if prev_res and prev_res.startswith('raise:') else ''))
         tags.append('int=' + ('none' if c['int'] is None else c['int'][0]))
         if c['int'] is not None:
             tags.append('int-fired' if res == 'raise:injected' else 'int-not-fired')
@@ -809,6 +909,7 @@ def _tags(cfg, calls, toks):
         if c['ow'] and res == 'ret1':
             tags.append('forced-rerun-complete')
         prev_state = st
+        prev_res = res
     return tags
 
 
@@ -915,6 +1016,22 @@ def staple_histories(ov):
     out.append((b3, ['11100:s5:0@0', '11110:s3:1@700', '11110:s4:1@1300']))     # partial files that hold the altered sample
     b4 = dict(kind='np24', n=3, ns=3700, w=1200, ov=ov, orig='cbin')
     out.append((b4, ['11100:-:2@1250', '11110:-:0@2500', '11110:-:1@3699']))
+    # the same converter object called again: process(); process(); process(overwrite=True) -- an interrupted run retried on the
+    # same object -- a stale check_completed followed by an unfaithful forced re-run -- the object that deleted the original
+    # asked again without overwrite -- (cbin only: with overwrite, known finding same-object-rerun-after-delete)
+    for kind, n in (('np24', 2), ('np21', 1)):
+        base = dict(kind=kind, n=n, ns=1500, w=1200, ov=ov, orig='bin')
+        for b in ('110', '000', '010', '100'):
+            out.append((base, [f'{b}000:-:-', f'{b}001:-:-', f'{b}101:-:-', f'{b}001:-:-']))
+        out.append((base, ['111000:s1:-', '111001:-:-', '111101:-:-']))
+        out.append((base, ['111000:c1:-', '111101:c0:-', '111101:-:-']))
+        out.append((base, ['111000:m1:-', '111101:v1:-', '111101:-:-']))
+        out.append((base, ['111000:d:-', '111101:-:1@0', '111101:-:-', '111001:-:-']))
+        out.append((base, ['010000:c0:-', '010101:-:-', '010001:-:-']))
+        out.append((dict(base, orig='cbin'), ['101000:-:-', '101001:-:-', '101101:-:-']))
+        if kind == 'np24':      # known finding same-object-rerun-after-delete (model and code agree; the oracle skips the excluded step)
+            out.append((base, ['101000:-:-', '101101:-:-']))
+            out.append((base, ['111000:-:-', '111001:-:-', '111101:-:-']))
     # known finding partial-folders-rerun: only some expected folders exist (model and code agree on what happens)
     out.append((dict(kind='np24', n=2, ns=1500, w=1200, ov=ov, orig='bin@1'), ['11000:-:-', '11000:-:-', '11010:-:-']))
     out.append((dict(kind='np24', n=3, ns=1500, w=1200, ov=ov, orig='cbin@2'), ['00100:s1:-', '11110:-:-']))
@@ -958,6 +1075,8 @@ def exhaustive_single_calls(ov):
             if bits >> 3 & 1:
                 for k in range(0, 10):
                     out.append((cfg, [f'{b}:v{k}:1@{row}']))
+    # the same converter object again: every option triple x (rerun, rerun + forced, forced, interrupted + forced / + rerun)
+    out.extend(_same_object_sequences(ov))
     return out
 
 
@@ -1002,8 +1121,24 @@ def _shrink(cfg, call_toks):
     return cfg, call_toks[:r[0] + 1], r[1], r[2]
 
 
+def _same_object_sequences(ov):
+    for kind, n in (('np24', 2), ('np21', 1)):
+        cfg = dict(kind=kind, n=n, ns=1500, w=1200, ov=ov, orig='bin')
+        for bits in range(8):
+            b = f'{bits >> 2 & 1}{bits >> 1 & 1}{bits & 1}'
+            if kind == 'np24' and b[0] == '1' and b[2] == '1':
+                continue        # the object deletes the original in its first run: excluded class
+            yield cfg, [f'{b}000:-:-', f'{b}001:-:-']
+            yield cfg, [f'{b}000:-:-', f'{b}001:-:-', f'{b}101:-:-']
+            yield cfg, [f'{b}000:-:-', f'{b}101:-:-']
+            for p in ('s1', 'm0', 'c0', 'c1', 'v0', 'd'):
+                yield cfg, [f'{b}000:{p}:-', f'{b}101:-:-']
+                yield cfg, [f'{b}000:{p}:-', f'{b}001:-:-']
+
+
 def _systematic(ov):
     """short histories around every clause of the property"""
+    yield from _same_object_sequences(ov)
     firsts = [[], ['11000:-:-'], ['00000:-:-'], ['11000:s1:-'], ['11000:m1:-'], ['11000:c0:-'], ['11000:c1:-'], ['01000:-:0@0']]
     for kind, n in (('np24', 2), ('np21', 1), ('np1', 1)):
         for orig in ('bin', 'cbin'):
@@ -1063,7 +1198,7 @@ def search(ctx, reasons):
         return None
     cfg, toks, why, states = best
     return {'input': {'cfg': cfg, 'calls': toks,
-                      'legend': 'call = <post_check><compress><delete_original><overwrite><on shank file>:<interruption s/m/v/c<j> or d>:'
+                      'legend': 'call = <post_check><compress><delete_original><overwrite><on shank file><same object again>:<interruption s/m/v/c<j> or d>:'
                                 '<shank>@<row of the AP sample altered before it is written>'},
             'observed': {'violation': why, 'results_and_disk_after_each_call': states},
             'expected': 'C04: original recoverable byte for byte after every call; removed only after a passed bit-exact verification; '
@@ -1087,8 +1222,65 @@ def _demo_partial_folders():
         shutil.rmtree(root, ignore_errors=True)
 
 
+_SEGV_SCRIPT = r'''
+import sys, logging
+sys.path.insert(0, sys.argv[1]); sys.path.insert(0, sys.argv[2])
+logging.disable(logging.CRITICAL)
+from pathlib import Path
+from props import c04
+import neuropixel
+rec = c04.Rec.get('np24', 2, 1500, 1200, 576)
+root = Path(sys.argv[3])
+rec.materialise(root, 'bin')
+conv = neuropixel.NP2Converter(root / 'probe00' / (c04.STEM + '.ap.bin'), post_check=True, delete_original=True, compress=False)
+conv.init_params(nwindow=1200)
+assert conv.process() == 1
+print('FIRST-RUN-OK', c04.recoverable(root, rec), flush=True)
+conv.process(overwrite=True)
+print('SECOND-RUN-RETURNED', flush=True)
+'''
+
+
+def _demo_same_object_after_delete():
+    """conv.process() verifies and deletes the original (.bin); conv.process(overwrite=True) on the same object truncates every
+    shank file and the interpreter dies (closed memmap): nothing on disk holds the recording any more.  Run in a subprocess."""
+    import subprocess
+    import sys
+    rec = Rec.get('np24', 2, 1500, 1200, 576)
+    root = Path(tempfile.mkdtemp(prefix='c04g_'))
+    try:
+        shutil.rmtree(root)
+        p = subprocess.run([sys.executable, '-c', _SEGV_SCRIPT, str(Path(__file__).resolve().parents[1]), str(REPO / 'src'), str(root)],
+                           capture_output=True, text=True, timeout=300)
+        first_ok = 'FIRST-RUN-OK None' in p.stdout
+        return first_ok and 'SECOND-RUN-RETURNED' not in p.stdout and p.returncode != 0 and recoverable(root, rec) is not None
+    finally:
+        shutil.rmtree(root, ignore_errors=True)
+
+
+def _demo_np21_sorted_reader():
+    """NP2.1: process() compresses in place and re-opens the reader sorted; process(overwrite=True) on the same object returns 1
+    and writes an lf file that differs from the one a new object writes"""
+    rec = Rec.get('np21', 1, 1500, 1200, 576)
+    _, toks, _ = run_history(rec, 'bin', calls=[parse_call('010000:-:-'), parse_call('010101:-:-')], oracle=False)
+    root = Path(tempfile.mkdtemp(prefix='c04h_'))
+    try:
+        rec.materialise(root, 'bin')
+        holder = {}
+        r1 = do_call(root, rec, parse_call('010000:-:-'), holder)
+        r2 = do_call(root, rec, parse_call('010101:-:-'), holder)
+        bad = complete_valid(root, rec, True, check_lf=True)
+        if holder.get('conv') is not None:
+            _close_all(holder.pop('conv'))
+        return r1 == 'ret1' and r2 == 'ret1' and bad is not None and 'lf' in bad
+    finally:
+        shutil.rmtree(root, ignore_errors=True)
+
+
 def known_findings(ctx):
-    return {'partial-folders-rerun': _demo_partial_folders}
+    return {'partial-folders-rerun': _demo_partial_folders,
+            'same-object-rerun-after-delete': _demo_same_object_after_delete,
+            'np21-same-object-sorted-reader': _demo_np21_sorted_reader}
 
 
 def replay(ctx, rep):
